@@ -115,10 +115,11 @@ U_DPrZ   == {U_D(p, "N", "N", "N", {}) : p \in U_PrVals} \cup {U_D(1, "N", "N", 
 U_DDelZ  == {U_D(PrNone, d, "N", "N", {}) : d \in U_Tri} \cup {U_D(PrNone, "T", "N", "N", U_Md)}
 U_DNewZ  == {U_D(PrNone, "N", a, "N", {}) : a \in U_Tri} \cup {U_D(PrNone, "N", "T", "N", U_Md)}
 U_DSafeZ == {U_D(PrNone, "N", "N", x, {}) : x \in U_Tri} \cup {U_D(PrNone, "N", "N", "T", U_Md)}
-U_QFocusPr   == U_Chain(U_DPr, U_DPr, U_DPrZ, {"dict", "list"}, {U_I("1"), U_Null, U_EMap}, {U_I("1"), U_Null})
-U_QFocusDel  == U_Chain(U_DDel, U_DDel, U_DDelZ, {"dict", "list"}, {U_I("1"), U_Null, U_EList, U_List(<<U_I("1")>>), U_EMap}, U_XLeaf)
-U_QFocusNew  == U_Chain(U_DNew, U_DNew, U_DNewZ, {"dict", "list"}, {U_I("1"), U_EMap, U_Map1(U_KA, U_I("1"))}, {U_I("1"), U_Null, U_EMap})
-U_QFocusSafe == U_Chain(U_DSafe, U_DSafe, U_DSafeZ, {"dict", "list"}, {U_I("1"), U_Call("vmod.rec", <<>>), U_EMap}, {U_I("1"), U_Null, U_Call("vmod.rec", <<>>)})
+U_DPrR   == {U_None, U_D(1, "N", "N", "N", {}), U_D(1, "N", "N", "N", U_Md), U_D(-1, "N", "N", "N", U_Md), U_D(0, "N", "N", "N", U_Md)}
+U_QFocusPr   == U_Chain(U_DPrR, U_DPr, U_DPrZ, {"dict", "list"}, {U_I("1"), U_Null}, {U_I("1"), U_Null})
+U_QFocusDel  == U_Chain(U_DDel, U_DDel, U_DDelZ, {"dict", "list"}, {U_I("1"), U_EList, U_List(<<U_I("1")>>)}, {U_Null, U_EList, U_EMap})
+U_QFocusNew  == U_Chain(U_DNew, U_DNew, U_DNewZ, {"dict", "list"}, {U_EMap, U_Map1(U_KA, U_I("1"))}, {U_I("1"), U_EMap})
+U_QFocusSafe == U_Chain(U_DSafe, U_DSafe, U_DSafeZ, {"dict", "list"}, {U_I("1"), U_Call("vmod.rec", <<>>)}, {U_I("1"), U_Call("vmod.rec", <<>>)})
 
 \* node kinds at X (and, for containers, one decorated Z below)
 U_KindLeaves == {U_Kind("required", <<>>), U_XRef(<<U_KB>>), U_XRef(<<U_KA, IKey(0)>>), U_Prev(<<U_KB>>),
@@ -133,15 +134,18 @@ U_DKind == {U_None, U_D(PrNone, "N", "N", "N", U_Md), U_D(1, "N", "N", "N", {}),
             U_D(1, "T", "N", "N", {}), U_D(PrNone, "F", "F", "N", U_Md)}
 U_DZKind == {U_None, U_D(1, "N", "N", "N", {}), U_D(PrNone, "T", "N", "N", {}), U_D(PrNone, "F", "N", "N", {}),
              U_D(PrNone, "N", "F", "N", {}), U_D(PrNone, "N", "N", "F", {}), U_D(PrNone, "N", "N", "N", U_Md)}
-U_DKindC == {U_None, U_D(PrNone, "N", "N", "N", U_Md), U_D(1, "N", "N", "N", {}), U_D(PrNone, "F", "N", "N", {}), U_D(PrNone, "N", "F", "N", U_Md)}
-U_DKindP == {U_None, U_D(1, "N", "N", "N", U_Md), U_D(PrNone, "T", "N", "N", U_Md), U_D(PrNone, "N", "F", "N", U_Md), U_D(PrNone, "N", "N", "F", U_Md)}
-U_KindsOf(zb, dkc, dp) ==
-    LET zs == U_Dec(zb, U_DZKind)
-        xs == U_Dec(U_KindLeaves, U_DKind)
+U_DKindC == {U_None, U_D(1, "N", "N", "N", {}), U_D(PrNone, "F", "N", "N", U_Md)}
+U_DKindQ == {U_None, U_D(PrNone, "N", "N", "N", U_Md), U_D(1, "N", "N", "N", {}), U_D(PrNone, "T", "N", "N", {}), U_D(PrNone, "F", "N", "N", {}),
+             U_D(PrNone, "N", "F", "N", {}), U_D(PrNone, "N", "N", "F", {}), U_D(1, "T", "N", "N", {})}
+U_DKindP == {U_None, U_D(1, "N", "N", "N", U_Md), U_D(PrNone, "T", "N", "N", U_Md)}
+U_DZKindQ == {U_None, U_D(1, "N", "N", "N", {}), U_D(PrNone, "T", "N", "N", {}), U_D(PrNone, "N", "F", "N", {}), U_D(PrNone, "N", "N", "N", U_Md)}
+U_KindsOf(zb, dz, dk, dkc, dp) ==
+    LET zs == U_Dec(zb, dz)
+        xs == U_Dec(U_KindLeaves, dk)
               \cup U_Dec({U_Wrap(xk, z) : xk \in {"call", "bind", "extend", "pathp"}, z \in zs}, dkc)
     IN U_Dec({U_Map1(U_KA, x) : x \in xs}, dp)
-U_Kinds  == U_KindsOf({U_I("1"), U_Null, U_EList, U_Map1(U_KA, U_I("1"))}, U_DKind, U_DParents)
-U_QKinds == U_KindsOf({U_I("1"), U_Null, U_EList}, U_DKindC, U_DKindP)
+U_Kinds  == U_KindsOf({U_I("1"), U_Null, U_EList, U_Map1(U_KA, U_I("1"))}, U_DZKind, U_DKind, U_DKindQ, U_DParents)
+U_QKinds == U_KindsOf({U_I("1"), U_Null, U_EList}, U_DZKindQ, U_DKindQ, U_DKindC, U_DKindP)
 
 \* siblings: what is written after a tagged node (the stack must be popped;
 \* a later string must still be quoted) - R {a: X, b: Y}
@@ -161,6 +165,8 @@ U_SibY == {U_I("2"), U_S("[1]"), U_S("x #y"), U_S("true"), U_S(""), U_Null,
            U_Apply(U_Map1(U_KA, U_I("1")), U_D(PrNone, "N", "F", "N", {})),
            U_Apply(U_I("2"), U_D(1, "N", "N", "N", {})),
            U_Apply(U_Map1(U_KA, U_List(<<U_I("1")>>)), U_D(PrNone, "F", "N", "N", {}))}
+U_QSiblings == {U_Map2(x, y) : x \in U_SibX, y \in U_SibY}
+               \cup {U_Map1(U_KA, U_Apply(U_Map2(x, y), U_D(PrNone, "T", "N", "N", U_Md))) : x \in U_SibX, y \in {U_S("[1]"), U_I("2"), U_Apply(U_List(<<U_I("1"), U_I("2")>>), U_D(PrNone, "F", "N", "N", {}))}}
 U_Siblings == U_Dec({U_Map2(x, y) : x \in U_SibX, y \in U_SibY}, {U_None, U_D(PrNone, "F", "N", "N", {}), U_D(PrNone, "T", "N", "N", U_Md)})
               \* the same nesting one level down: {a: !merge {a: .., b: ..}}
               \cup {U_Map1(U_KA, U_Apply(U_Map2(x, y), d)) : x \in U_SibX, y \in U_SibY,
@@ -195,7 +201,8 @@ U_CtxA ==
 U_CtxDocs == {U_Map1(U_KA, w) : w \in U_CtxA}
              \cup {U_EMap, U_Map1(U_KB, U_I("5")), U_T(U_Map1(U_KB, U_I("5")), "del"), U_T(U_Map1(U_KA, U_I("5")), "notnew"),
                    U_Map2(U_I("5"), U_I("6")), U_Map2(U_Prev(<<U_KB>>), U_I("6")), U_Map1(U_KB, U_Prev(<<U_KA>>)),
-                   U_Map1(U_KB, U_Prev(<<U_KA, U_KA>>)), U_Map1(U_KB, U_Map1(U_KA, U_Prev(<<U_KA>>)))}
+                   U_Map1(U_KB, U_Prev(<<U_KA, U_KA>>)), U_Map1(U_KB, U_Map1(U_KA, U_Prev(<<U_KA>>))),
+                   U_Map1(U_KA, U_Prev(<<U_KA, U_KA>>)), U_Map1(U_KA, U_Prev(<<U_KA, IKey(0)>>))}
 \* the few used for three-stage histories
 U_CtxSmall == {U_Map1(U_KA, w) : w \in {U_I("5"), U_Map1(U_KA, U_I("5")), U_Map1(U_KA, U_Map1(U_KB, U_I("5"))),
                                        U_List(<<U_I("5"), U_I("6")>>), U_T(U_Null, "del"), U_Map1(U_KA, U_Kind("clear", <<>>)),
@@ -203,8 +210,22 @@ U_CtxSmall == {U_Map1(U_KA, w) : w \in {U_I("5"), U_Map1(U_KA, U_I("5")), U_Map1
                 \cup {U_Map1(U_KB, U_Prev(<<U_KA>>))}
 
 U_CtxBig == U_CtxDocs \ U_CtxSmall
+\* the quick tier's context documents
+U_CtxQA == {U_I("5"), U_T(U_I("5"), "force"), U_T(U_Null, "del"), U_S(""), U_T(U_Map1(U_KA, U_I("5")), "weak"),
+            U_Map1(U_KB, U_I("5")), U_Map1(U_KA, U_Map1(U_KB, U_I("5"))), U_Map1(U_KA, U_List(<<U_I("5"), U_I("6")>>)),
+            U_Map1(U_KA, U_T(U_Null, "del")), U_Map1(U_KA, U_T(U_EMap, "del")), U_T(U_Map1(U_KA, U_I("5")), "notnew"),
+            U_Map1(U_KA, U_T(U_I("5"), "notnew")), U_Map1(U_KA, U_Map1(U_KA, U_Call("vmod.rec", <<>>))), U_Map1(U_KA, U_Call("vmod.rec", <<>>)),
+            U_List(<<U_I("5"), U_I("6"), U_I("7")>>), U_T(U_List(<<U_I("5")>>), "merge"), U_List(<<U_Map1(U_KB, U_I("5")), U_I("6")>>),
+            U_List(<<U_List(<<U_I("5"), U_I("6")>>)>>), U_T(U_List(<<U_T(U_Map1(U_KB, U_I("5")), "del")>>), "merge"),
+            SD("dict", NoVal, << <<IKey(0), U_Map1(U_KB, U_I("5"))>> >>), U_Call("vmod.rec", << <<U_KA, U_I("5")>> >>), U_Call("vmod.rec", <<>>),
+            U_Kind("clear", <<>>), U_Kind("append", << <<IKey(0), U_I("9")>> >>)}
+U_CtxSmallQ == {U_Map1(U_KA, w) : w \in {U_I("5"), U_Map1(U_KA, U_Map1(U_KB, U_I("5"))), U_T(U_Null, "del")}} \cup {U_Map1(U_KB, U_Prev(<<U_KA>>))}
+U_CtxQ == ({U_Map1(U_KA, w) : w \in U_CtxQA}
+           \cup {U_EMap, U_Map1(U_KB, U_Call("vmod.rec", <<>>)), U_T(U_Map1(U_KB, U_I("5")), "del"), U_Map1(U_KB, U_Prev(<<U_KA, U_KA>>)),
+                 U_Map1(U_KB, U_Map1(U_KA, U_Prev(<<U_KA>>))), U_Map2(U_Prev(<<U_KB>>), U_I("6")),
+                 U_Map1(U_KA, U_Prev(<<U_KA, U_KA>>)), U_Map1(U_KA, U_Prev(<<U_KA, IKey(0)>>))}) \ U_CtxSmallQ
 
-U_Quick    == U_QFocusPr \cup U_QFocusDel \cup U_QFocusNew \cup U_QFocusSafe \cup U_QKinds \cup U_Siblings
+U_Quick    == U_QFocusPr \cup U_QFocusDel \cup U_QFocusNew \cup U_QFocusSafe \cup U_QKinds \cup U_QSiblings
 U_Thorough == U_Quick \cup U_FocusPr \cup U_FocusDel \cup U_FocusNew \cup U_FocusSafe \cup U_Kinds \cup U_AllXZ \cup U_Pairs3
 \* narrow universes for the mutation cfgs
 U_MutDel   == U_Chain({U_None, U_D(PrNone, "T", "N", "N", U_Md), U_D(PrNone, "F", "N", "N", U_Md)}, U_DDel, U_DDelZ, {"dict", "list"},
@@ -214,6 +235,7 @@ U_MutSafe  == U_Chain({U_None, U_D(PrNone, "N", "N", "F", U_Md)}, U_DSafe, U_DSa
 U_MutKinds == U_Dec({U_Map1(U_KA, x) : x \in U_Dec(U_KindLeaves \cup {U_Null, U_Apply(U_S("a\\b"), U_D(1, "N", "N", "N", {}))}, U_DKind)}, {U_None})
 U_MutKindsP == U_Dec({U_Map1(U_KA, x) : x \in U_KindLeaves}, {U_D(1, "N", "N", "N", {}), U_D(-1, "N", "N", "N", U_Md)})
 \* three-stage histories in the quick tier
-U_Q3 == U_MutDel \cup U_MutNew
+U_Q3 == U_Chain({U_None, U_D(PrNone, "T", "N", "N", U_Md)}, U_DDelZ, U_DDelZ, {"dict", "list"}, {U_I("1"), U_EList}, {U_EList})
+        \cup U_Chain({U_None, U_D(PrNone, "N", "F", "N", U_Md)}, U_DNewZ, U_DNewZ, {"dict"}, {U_EMap}, {U_I("1")})
 
 =============================================================================
